@@ -1,14 +1,19 @@
 /-
   C03 — Merkle inclusion and consistency proofs are complete and sound (RFC 6962).
   Property theorems only; helpers in Proofs/TlogBasic.lean, Proofs/TlogTH.lean.
-  The deep theorems (proveRecord_eq_PATH, proveTree_eq_PROOF, checkRecord_complete, checkRecord_iff,
-  checkTree_iff, sound_incl, sound_cons, rfc9162_*_equiv) are stated in lean/PENDING.md.
+  Property theorems only; helpers also in Proofs/TlogCheck.lean, Proofs/TlogMerkle*.lean.
+  What is not proved yet is stated in lean/PENDING.md.
 -/
 import ModVerif.Model.Tlog
 import ModVerif.Spec.RFC6962
 import ModVerif.Proofs.TlogBasic
 import ModVerif.Proofs.TlogTH
 import ModVerif.Proofs.TlogCheck
+import ModVerif.Proofs.TlogMerkleSound
+import ModVerif.Proofs.TlogMerkleProve
+import ModVerif.Proofs.TlogMerkle9162
+import ModVerif.Proofs.TlogMerkle9162Cons
+import ModVerif.Props.C09
 namespace ModVerif.Props.C03
 open ModVerif ModVerif.Tlog ModVerif.TlogTH
 
@@ -233,5 +238,372 @@ theorem proveTree_witness :
 theorem checkRecord_huge_size_answers :
     isErr (checkRecord TH.node [TH.junk 0] (2 ^ 62 + 1) (TH.junk 1) 5 (TH.junk 2)) .proofFailed = true := by
   decide +kernel
+
+/-! ### completeness and soundness with respect to the RFC 6962 tree hash, audit path and consistency proof -/
+
+section
+variable {H : Type} [DecidableEq H] (leaf : Bytes → H) (node : H → H → H) (empty : H)
+
+/-- ★ completeness (inclusion): the RFC 6962 audit path of record `n` is accepted by `CheckRecord` against the
+    RFC 6962 root, for every log within the int64 range. -/
+theorem checkRecord_complete (D : List Bytes) (n : Nat) (hn : n < D.length) (hD : D.length ≤ 2 ^ 63) :
+    checkRecord node (RFC6962.path node empty n (D.map leaf)) D.length (RFC6962.mth node empty (D.map leaf)) n
+      (leaf D[n]) = .ok () := by
+  rw [checkRecord_iff node _ _ _ _ _ (by exact_mod_cast hD)]
+  refine ⟨by omega, by omega, ?_⟩
+  have := RFC6962.acceptIncl_path node empty (D.map leaf) n (by simpa using hn)
+  simpa using this
+
+/-- ★ completeness (consistency): the RFC 6962 consistency proof between the first `n` records and the whole
+    log is accepted by `CheckTree` against the two RFC 6962 roots. -/
+theorem checkTree_complete (D : List Bytes) (n : Nat) (h1 : 1 ≤ n) (h2 : n ≤ D.length) (hD : D.length ≤ 2 ^ 63) :
+    checkTree node (RFC6962.proof node empty n (D.map leaf)) D.length (RFC6962.mth node empty (D.map leaf)) n
+      (RFC6962.mth node empty ((D.map leaf).take n)) = .ok () := by
+  rw [checkTree_iff node _ _ _ _ _ (by exact_mod_cast hD)]
+  refine ⟨by omega, by omega, ?_⟩
+  have := RFC6962.acceptCons_proof node empty (D.map leaf) n h1 (by simpa using h2)
+  simpa using this
+
+/-- ★ soundness (inclusion), collision freedom CF: a tuple accepted against the TRUE root of the log carries the
+    true leaf hash of record `n` — hence, by collision freedom of `leaf`, the record itself — and exactly the
+    RFC 6962 audit path. -/
+theorem sound_incl (hcf : RFC6962.CF leaf node) (D : List Bytes) (p : List H) (n : Nat) (h : H)
+    (hacc : RFC6962.AcceptIncl node p D.length n h (RFC6962.mth node empty (D.map leaf))) :
+    (∃ hn : n < D.length, h = leaf D[n]) ∧ p = RFC6962.path node empty n (D.map leaf) ∧
+      ∀ x, h = leaf x → D[n]? = some x := by
+  have hacc' : RFC6962.AcceptIncl node p (D.map leaf).length n h (RFC6962.mth node empty (D.map leaf)) := by
+    simpa using hacc
+  obtain ⟨a, b⟩ := RFC6962.sound_incl node empty hcf.nodeInj (D.map leaf) p n h hacc'
+  have hn : n < D.length := hacc.1
+  have e : h = leaf D[n] := by
+    rw [List.getElem?_map, List.getElem?_eq_getElem hn] at a
+    exact (Option.some.inj a).symm
+  refine ⟨⟨hn, e⟩, b, ?_⟩
+  intro x hx
+  rw [List.getElem?_eq_getElem hn, hcf.2.1 _ _ (e.symm.trans hx)]
+
+/-- ★ soundness (consistency), CF: a tuple accepted against the TRUE root of the log carries the true root of the
+    first `n` records and exactly the RFC 6962 consistency proof. -/
+theorem sound_cons (hcf : RFC6962.CF leaf node) (D : List Bytes) (p : List H) (n : Nat) (h : H)
+    (hacc : RFC6962.AcceptCons node p D.length n h (RFC6962.mth node empty (D.map leaf))) :
+    h = RFC6962.mth node empty ((D.map leaf).take n) ∧ p = RFC6962.proof node empty n (D.map leaf) := by
+  have hacc' : RFC6962.AcceptCons node p (D.map leaf).length n h (RFC6962.mth node empty (D.map leaf)) := by
+    simpa using hacc
+  exact RFC6962.sound_cons node empty hcf.nodeInj (D.map leaf) p n h hacc'
+
+/-- ★ `CheckRecord` against the true root accepts exactly ONE (proof, leaf hash) pair per (size, index):
+    the RFC 6962 audit path with the true leaf hash. -/
+theorem checkRecord_true_root_iff (hcf : RFC6962.CF leaf node) (D : List Bytes) (p : List H) (n : Nat) (h : H)
+    (hD : D.length ≤ 2 ^ 63) :
+    checkRecord node p D.length (RFC6962.mth node empty (D.map leaf)) n h = .ok () ↔
+      (∃ hn : n < D.length, h = leaf D[n]) ∧ p = RFC6962.path node empty n (D.map leaf) := by
+  constructor
+  · intro hc
+    have := (checkRecord_iff node p D.length n _ h (by exact_mod_cast hD)).mp hc
+    have hacc := this.2.2
+    simp only [Int.toNat_natCast] at hacc
+    have := sound_incl leaf node empty hcf D p n h hacc
+    exact ⟨this.1, this.2.1⟩
+  · rintro ⟨⟨hn, rfl⟩, rfl⟩
+    exact checkRecord_complete leaf node empty D n hn hD
+
+/-- ★ `CheckTree` against the true root accepts exactly ONE (proof, old root) pair per pair of sizes. -/
+theorem checkTree_true_root_iff (hcf : RFC6962.CF leaf node) (D : List Bytes) (p : List H) (n : Nat) (h : H)
+    (hD : D.length ≤ 2 ^ 63) :
+    checkTree node p D.length (RFC6962.mth node empty (D.map leaf)) n h = .ok () ↔
+      1 ≤ n ∧ n ≤ D.length ∧ h = RFC6962.mth node empty ((D.map leaf).take n) ∧
+        p = RFC6962.proof node empty n (D.map leaf) := by
+  constructor
+  · intro hc
+    have := (checkTree_iff node p D.length n _ h (by exact_mod_cast hD)).mp hc
+    have hacc := this.2.2
+    simp only [Int.toNat_natCast] at hacc
+    have hs := sound_cons leaf node empty hcf D p n h hacc
+    exact ⟨hacc.1, hacc.2.1, hs.1, hs.2⟩
+  · rintro ⟨h1, h2, rfl, rfl⟩
+    exact checkTree_complete leaf node empty D n h1 h2 hD
+
+/-- ★ `mutation_rejected` (inclusion), CF: against the true root, ANY proof other than the RFC 6962 audit path
+    — a changed hash, a missing or additional hash, another order — and ANY other leaf hash is answered with
+    errProofFailed (not accepted, and not a crash). -/
+theorem mutation_rejected_record (hcf : RFC6962.CF leaf node) (D : List Bytes) (p : List H) (n : Nat) (h : H)
+    (hn : n < D.length) (hD : D.length ≤ 2 ^ 63)
+    (hmut : p ≠ RFC6962.path node empty n (D.map leaf) ∨ h ≠ leaf D[n]) :
+    checkRecord node p D.length (RFC6962.mth node empty (D.map leaf)) n h = .error .proofFailed := by
+  rcases checkRecord_total node p D.length n (RFC6962.mth node empty (D.map leaf)) h with hc | hc | hc
+  · obtain ⟨⟨_, e1⟩, e2⟩ := (checkRecord_true_root_iff leaf node empty hcf D p n h hD).mp hc
+    rcases hmut with hm | hm
+    · exact absurd e2 hm
+    · exact absurd e1 hm
+  · exfalso
+    unfold checkRecord at hc
+    have : (decide ((D.length : Int) < 0) || decide ((n : Int) < 0) || decide ((n : Int) ≥ (D.length : Int))) = false := by
+      simp; omega
+    simp only [this, Bool.false_eq_true, ↓reduceIte] at hc
+    rcases runRecordProofF_clean node (D.length - 0) p 0 D.length n h (Nat.zero_le _) hn (Nat.le_refl _) with hr | ⟨a, hr⟩
+    · simp only [runRecordProof, Int.toNat_natCast] at hc; rw [hr] at hc; cases hc
+    · simp only [runRecordProof, Int.toNat_natCast] at hc; rw [hr] at hc
+      simp only [bind, Except.bind] at hc
+      split at hc <;> cases hc
+  · exact hc
+
+/-- ★ `mutation_rejected` (consistency), CF: against the true new root, ANY proof other than the RFC 6962
+    consistency proof and ANY other old root is answered with errProofFailed. -/
+theorem mutation_rejected_tree (hcf : RFC6962.CF leaf node) (D : List Bytes) (p : List H) (n : Nat) (h : H)
+    (h1 : 1 ≤ n) (h2 : n ≤ D.length) (hD : D.length ≤ 2 ^ 63)
+    (hmut : p ≠ RFC6962.proof node empty n (D.map leaf) ∨ h ≠ RFC6962.mth node empty ((D.map leaf).take n)) :
+    checkTree node p D.length (RFC6962.mth node empty (D.map leaf)) n h = .error .proofFailed := by
+  rcases checkTree_total node p D.length n (RFC6962.mth node empty (D.map leaf)) h with hc | hc | hc
+  · obtain ⟨_, _, e1, e2⟩ := (checkTree_true_root_iff leaf node empty hcf D p n h hD).mp hc
+    rcases hmut with hm | hm
+    · exact absurd e2 hm
+    · exact absurd e1 hm
+  · exfalso
+    unfold checkTree at hc
+    have : (decide ((D.length : Int) < 1) || decide ((n : Int) < 1) || decide ((n : Int) > (D.length : Int))) = false := by
+      simp; omega
+    simp only [this, Bool.false_eq_true, ↓reduceIte] at hc
+    rcases runTreeProofF_clean node (D.length - 0) p 0 D.length n h (by omega) h2 (Nat.le_refl _) with hr | ⟨a, hr⟩
+    · simp only [runTreeProof, Int.toNat_natCast] at hc; rw [hr] at hc; cases hc
+    · simp only [runTreeProof, Int.toNat_natCast] at hc; rw [hr] at hc
+      simp only [bind, Except.bind] at hc
+      split at hc <;> cases hc
+  · exact hc
+
+omit [DecidableEq H] in
+theorem set_ne_self (l : List H) (i : Nat) (x : H) (hi : i < l.length) (hx : x ≠ l[i]) : l.set i x ≠ l := by
+  intro hc
+  have : (l.set i x)[i]? = l[i]? := by rw [hc]
+  rw [List.getElem?_set_self hi, List.getElem?_eq_getElem hi] at this
+  exact hx (Option.some.inj this)
+
+/-- replacing one hash of the audit path by a different hash is rejected -/
+theorem proof_hash_change_rejected_record (hcf : RFC6962.CF leaf node) (D : List Bytes) (n i : Nat) (x : H)
+    (hn : n < D.length) (hD : D.length ≤ 2 ^ 63)
+    (hi : i < (RFC6962.path node empty n (D.map leaf)).length) (hx : x ≠ (RFC6962.path node empty n (D.map leaf))[i]) :
+    checkRecord node ((RFC6962.path node empty n (D.map leaf)).set i x) D.length
+      (RFC6962.mth node empty (D.map leaf)) n (leaf D[n]) = .error .proofFailed :=
+  mutation_rejected_record leaf node empty hcf D _ n _ hn hD (Or.inl (set_ne_self _ i x hi hx))
+
+/-- a proof of another length (hashes dropped or added, anywhere) is rejected -/
+theorem proof_length_change_rejected_record (hcf : RFC6962.CF leaf node) (D : List Bytes) (p : List H) (n : Nat) (h : H)
+    (hn : n < D.length) (hD : D.length ≤ 2 ^ 63) (hlen : p.length ≠ (RFC6962.path node empty n (D.map leaf)).length) :
+    checkRecord node p D.length (RFC6962.mth node empty (D.map leaf)) n h = .error .proofFailed :=
+  mutation_rejected_record leaf node empty hcf D p n h hn hD (Or.inl (fun hc => hlen (by rw [hc])))
+
+/-- the audit path in another order is rejected -/
+theorem proof_reorder_rejected_record (hcf : RFC6962.CF leaf node) (D : List Bytes) (p : List H) (n : Nat)
+    (hn : n < D.length) (hD : D.length ≤ 2 ^ 63) (_hperm : p.Perm (RFC6962.path node empty n (D.map leaf)))
+    (hne : p ≠ RFC6962.path node empty n (D.map leaf)) :
+    checkRecord node p D.length (RFC6962.mth node empty (D.map leaf)) n (leaf D[n]) = .error .proofFailed :=
+  mutation_rejected_record leaf node empty hcf D p n _ hn hD (Or.inl hne)
+
+/-- another record's hash (indeed the hash of any other byte string) in place of the leaf is rejected -/
+theorem leaf_change_rejected_record (hcf : RFC6962.CF leaf node) (D : List Bytes) (n : Nat) (x : Bytes)
+    (hn : n < D.length) (hD : D.length ≤ 2 ^ 63) (hx : x ≠ D[n]) :
+    checkRecord node (RFC6962.path node empty n (D.map leaf)) D.length (RFC6962.mth node empty (D.map leaf)) n (leaf x)
+      = .error .proofFailed :=
+  mutation_rejected_record leaf node empty hcf D _ n _ hn hD (Or.inr (fun hc => hx (hcf.2.1 _ _ hc)))
+
+/-- replacing one hash of the consistency proof by a different hash is rejected -/
+theorem proof_hash_change_rejected_tree (hcf : RFC6962.CF leaf node) (D : List Bytes) (n i : Nat) (x : H)
+    (h1 : 1 ≤ n) (h2 : n ≤ D.length) (hD : D.length ≤ 2 ^ 63)
+    (hi : i < (RFC6962.proof node empty n (D.map leaf)).length) (hx : x ≠ (RFC6962.proof node empty n (D.map leaf))[i]) :
+    checkTree node ((RFC6962.proof node empty n (D.map leaf)).set i x) D.length
+      (RFC6962.mth node empty (D.map leaf)) n (RFC6962.mth node empty ((D.map leaf).take n)) = .error .proofFailed :=
+  mutation_rejected_tree leaf node empty hcf D _ n _ h1 h2 hD (Or.inl (set_ne_self _ i x hi hx))
+
+/-- a consistency proof of another length is rejected -/
+theorem proof_length_change_rejected_tree (hcf : RFC6962.CF leaf node) (D : List Bytes) (p : List H) (n : Nat) (h : H)
+    (h1 : 1 ≤ n) (h2 : n ≤ D.length) (hD : D.length ≤ 2 ^ 63)
+    (hlen : p.length ≠ (RFC6962.proof node empty n (D.map leaf)).length) :
+    checkTree node p D.length (RFC6962.mth node empty (D.map leaf)) n h = .error .proofFailed :=
+  mutation_rejected_tree leaf node empty hcf D p n h h1 h2 hD (Or.inl (fun hc => hlen (by rw [hc])))
+
+/-- another old root is rejected -/
+theorem old_root_change_rejected_tree (hcf : RFC6962.CF leaf node) (D : List Bytes) (n : Nat) (h : H)
+    (h1 : 1 ≤ n) (h2 : n ≤ D.length) (hD : D.length ≤ 2 ^ 63) (hh : h ≠ RFC6962.mth node empty ((D.map leaf).take n)) :
+    checkTree node (RFC6962.proof node empty n (D.map leaf)) D.length (RFC6962.mth node empty (D.map leaf)) n h
+      = .error .proofFailed :=
+  mutation_rejected_tree leaf node empty hcf D _ n h h1 h2 hD (Or.inr hh)
+
+end
+
+/-! ### non-vacuity: collision freedom is satisfiable (free term algebra), and instances of every theorem above -/
+
+/-- CF holds in the free term algebra of hashes -/
+theorem cf_term_algebra : RFC6962.CF TH.leaf TH.node :=
+  ⟨fun _ _ _ _ h => by cases h; exact ⟨rfl, rfl⟩, fun _ _ h => by cases h; rfl, fun _ _ _ h => by cases h⟩
+
+example : checkRecord TH.node (RFC6962.path TH.node TH.empty 2 ((recs 7).map TH.leaf)) (recs 7).length (root 7) 2
+    (TH.leaf (recs 7)[2]) = .ok () :=
+  checkRecord_complete TH.leaf TH.node TH.empty (recs 7) 2 (by decide) (by decide)
+
+example : checkTree TH.node (RFC6962.proof TH.node TH.empty 3 ((recs 7).map TH.leaf)) (recs 7).length (root 7) 3
+    (RFC6962.mth TH.node TH.empty (((recs 7).map TH.leaf).take 3)) = .ok () :=
+  checkTree_complete TH.leaf TH.node TH.empty (recs 7) 3 (by decide) (by decide) (by decide)
+
+/-- the hypothesis of `sound_incl` is satisfiable: an accepted tuple against the true root -/
+example : RFC6962.AcceptIncl TH.node (RFC6962.path TH.node TH.empty 2 ((recs 7).map TH.leaf)) (recs 7).length 2
+    (TH.leaf [2]) (RFC6962.mth TH.node TH.empty ((recs 7).map TH.leaf)) := by decide +kernel
+
+/-- the hypothesis of `sound_cons` is satisfiable -/
+example : RFC6962.AcceptCons TH.node (RFC6962.proof TH.node TH.empty 3 ((recs 7).map TH.leaf)) (recs 7).length 3
+    (root 3) (RFC6962.mth TH.node TH.empty ((recs 7).map TH.leaf)) := by decide +kernel
+
+/-- `mutation_rejected_record` applies to a forged one-hash proof for record 2 of the 7-record log -/
+example : checkRecord TH.node [TH.junk 0] (recs 7).length (root 7) 2 (TH.leaf [2]) = .error .proofFailed :=
+  mutation_rejected_record TH.leaf TH.node TH.empty cf_term_algebra (recs 7) [TH.junk 0] 2 (TH.leaf [2])
+    (by decide) (by decide) (Or.inl (by decide +kernel))
+
+/-- `mutation_rejected_tree` applies to a forged old root -/
+example : checkTree TH.node (RFC6962.proof TH.node TH.empty 3 ((recs 7).map TH.leaf)) (recs 7).length (root 7) 3
+    (TH.junk 5) = .error .proofFailed :=
+  old_root_change_rejected_tree TH.leaf TH.node TH.empty cf_term_algebra (recs 7) 3 (TH.junk 5)
+    (by decide) (by decide) (by decide) (by decide +kernel)
+
+/-- `proof_hash_change_rejected_record` / `_tree`: position 1 of the two proofs replaced by a junk hash -/
+example : checkRecord TH.node ((RFC6962.path TH.node TH.empty 2 ((recs 7).map TH.leaf)).set 1 (TH.junk 0)) (recs 7).length
+    (root 7) 2 (TH.leaf (recs 7)[2]) = .error .proofFailed :=
+  proof_hash_change_rejected_record TH.leaf TH.node TH.empty cf_term_algebra (recs 7) 2 1 (TH.junk 0)
+    (by decide) (by decide) (by decide +kernel) (by decide +kernel)
+
+example : checkTree TH.node ((RFC6962.proof TH.node TH.empty 3 ((recs 7).map TH.leaf)).set 1 (TH.junk 0)) (recs 7).length
+    (root 7) 3 (RFC6962.mth TH.node TH.empty (((recs 7).map TH.leaf).take 3)) = .error .proofFailed :=
+  proof_hash_change_rejected_tree TH.leaf TH.node TH.empty cf_term_algebra (recs 7) 3 1 (TH.junk 0)
+    (by decide) (by decide) (by decide) (by decide +kernel) (by decide +kernel)
+
+/-! ### the provers produce exactly the RFC 6962 audit path / consistency proof -/
+
+section
+variable {H : Type} (leaf : Bytes → H) (node : H → H → H) (empty : H)
+
+/-- ★ `ProveRecord(t, n)` reading ANY dense store that satisfies the C09 store invariant for the records `D`
+    (`Tlog.StoreOK`: documented length, position `p` with layout coordinate `(l, k)` holds the RFC 6962 hash of the
+    records `[k·2^l, (k+1)·2^l)`) returns exactly the RFC 6962 audit path `PATH(n, D[0:t])` — no error, no panic —
+    for every `n < t ≤ |D|`, `t < 2^63` (an int64; beyond it the `l < 62` guard of `maxpow2` changes the split). -/
+theorem proveRecord_eq_PATH_of_storeOK (D : List Bytes) (st : List H) (hst : StoreOK leaf node empty D st)
+    (t n : Nat) (hn : n < t) (ht : t ≤ D.length) (hr : t < 2 ^ 63) :
+    proveRecord node t n (storeReader st) = .ok (RFC6962.path node empty n ((D.map leaf).take t)) :=
+  Tlog.proveRecord_eq_PATH_of_storeOK leaf node empty D st hst t n hn ht hr
+
+/-- ★ `ProveTree(t, n)` reading any dense store that satisfies the C09 store invariant returns exactly the RFC 6962
+    consistency proof `PROOF(n, D[0:t])`, for every `1 ≤ n ≤ t ≤ |D|`, `t < 2^63`. -/
+theorem proveTree_eq_PROOF_of_storeOK (D : List Bytes) (st : List H) (hst : StoreOK leaf node empty D st)
+    (t n : Nat) (h1 : 1 ≤ n) (hn : n ≤ t) (ht : t ≤ D.length) (hr : t < 2 ^ 63) :
+    proveTree node t n (storeReader st) = .ok (RFC6962.proof node empty n ((D.map leaf).take t)) :=
+  Tlog.proveTree_eq_PROOF_of_storeOK leaf node empty D st hst t n h1 hn ht hr
+
+/-- the store built by appending the records one at a time satisfies the invariant (C09 `store_invariant`) -/
+theorem storeOK_of_buildStore (D : List Bytes) (hD : D.length < 2 ^ 64) (st : List H)
+    (h : buildStore leaf node D = .ok st) : StoreOK leaf node empty D st :=
+  Props.C09.store_invariant_of_ok leaf node empty D hD st h
+
+/-- ★ `proveRecord_eq_PATH`: over the store built from the records `D`, the proof produced for record `n` in the tree of
+    size `t` is exactly the RFC 6962 audit path. -/
+theorem proveRecord_eq_PATH (D : List Bytes) (hD : D.length < 2 ^ 64) (st : List H)
+    (h : buildStore leaf node D = .ok st) (t n : Nat) (hn : n < t) (ht : t ≤ D.length) (hr : t < 2 ^ 63) :
+    proveRecord node t n (storeReader st) = .ok (RFC6962.path node empty n ((D.map leaf).take t)) :=
+  proveRecord_eq_PATH_of_storeOK leaf node empty D st
+    (storeOK_of_buildStore leaf node empty D hD st h) t n hn ht hr
+
+/-- ★ `proveTree_eq_PROOF`: over the store built from the records `D`, the proof that tree `n` is a prefix of tree `t` is
+    exactly the RFC 6962 consistency proof. -/
+theorem proveTree_eq_PROOF (D : List Bytes) (hD : D.length < 2 ^ 64) (st : List H)
+    (h : buildStore leaf node D = .ok st) (t n : Nat) (h1 : 1 ≤ n) (hn : n ≤ t) (ht : t ≤ D.length) (hr : t < 2 ^ 63) :
+    proveTree node t n (storeReader st) = .ok (RFC6962.proof node empty n ((D.map leaf).take t)) :=
+  proveTree_eq_PROOF_of_storeOK leaf node empty D st
+    (storeOK_of_buildStore leaf node empty D hD st h) t n h1 hn ht hr
+
+/-- ★ C03, first sentence, end to end: the proof produced for record `n` in the tree of the whole log is accepted by
+    the checker against the RFC 6962 root. -/
+theorem proveRecord_accepted [DecidableEq H] (D : List Bytes) (st : List H) (h : buildStore leaf node D = .ok st)
+    (n : Nat) (hn : n < D.length) (hr : D.length < 2 ^ 63) :
+    ∃ p, proveRecord node D.length n (storeReader st) = .ok p ∧
+      checkRecord node p D.length (RFC6962.mth node empty (D.map leaf)) n (leaf D[n]) = .ok () := by
+  refine ⟨_, proveRecord_eq_PATH leaf node empty D (by omega) st h D.length n hn (Nat.le_refl _) hr, ?_⟩
+  have : (D.map leaf).take D.length = D.map leaf := by
+    rw [List.take_of_length_le]; simp
+  rw [this]
+  exact checkRecord_complete leaf node empty D n hn (by omega)
+
+/-- ★ … and the proof produced for "tree `n` is a prefix of the whole log" is accepted by the checker against the two
+    RFC 6962 roots. -/
+theorem proveTree_accepted [DecidableEq H] (D : List Bytes) (st : List H) (h : buildStore leaf node D = .ok st)
+    (n : Nat) (h1 : 1 ≤ n) (hn : n ≤ D.length) (hr : D.length < 2 ^ 63) :
+    ∃ p, proveTree node D.length n (storeReader st) = .ok p ∧
+      checkTree node p D.length (RFC6962.mth node empty (D.map leaf)) n
+        (RFC6962.mth node empty ((D.map leaf).take n)) = .ok () := by
+  refine ⟨_, proveTree_eq_PROOF leaf node empty D (by omega) st h D.length n h1 hn (Nat.le_refl _) hr, ?_⟩
+  have : (D.map leaf).take D.length = D.map leaf := by
+    rw [List.take_of_length_le]; simp
+  rw [this]
+  exact checkTree_complete leaf node empty D n h1 hn (by omega)
+
+end
+
+/-- non-vacuity: a store satisfying `StoreOK` exists (the 13-record example log), with sizes in range -/
+example : ∃ st, buildStore TH.leaf TH.node (recs 13) = .ok st ∧ StoreOK TH.leaf TH.node TH.empty (recs 13) st ∧
+    (2 : Nat) < 7 ∧ 7 ≤ (recs 13).length ∧ (7 : Nat) < 2 ^ 63 := by
+  obtain ⟨st, h, h2⟩ := Props.C09.store_invariant TH.leaf TH.node TH.empty (recs 13) (by decide)
+  exact ⟨st, h, h2, by decide, by decide, by decide⟩
+
+/-! ### the iterative RFC 9162 verification algorithms accept exactly the same tuples -/
+
+section
+variable {H : Type} [DecidableEq H] (node : H → H → H)
+
+/-- ★ RFC 9162 §2.1.3.2 (iterative, bit-directed, proof consumed front to back) accepts exactly the tuples accepted
+    by root recomputation along the RFC 6962 recursion — for every proof, sizes, index and hashes. -/
+theorem rfc9162_incl_equiv (p : List H) (t n : Nat) (h root : H) :
+    RFC6962.verifyInclusion node p t n h root = true ↔ RFC6962.AcceptIncl node p t n h root :=
+  RFC6962.rfc9162_incl_equiv node p t n h root
+
+/-- ★ RFC 9162 §2.1.4.2 accepts exactly the tuples accepted by recomputation of both roots along the RFC 6962
+    SUBPROOF recursion, for `0 < n < t` (the domain of the RFC algorithm). -/
+theorem rfc9162_cons_equiv (p : List H) (t n : Nat) (h root : H) (h0 : 0 < n) (hn : n < t) :
+    RFC6962.verifyConsistency node p n t h root = true ↔ RFC6962.AcceptCons node p t n h root :=
+  RFC6962.rfc9162_cons_equiv node p t n h root h0 hn
+
+/-- ★ "The checkers accept a tuple if and only if the RFC 6962/9162 verification algorithm accepts it" (inclusion):
+    `CheckRecord` returns nil exactly when the arguments are in range and RFC 9162 §2.1.3.2 accepts. -/
+theorem checkRecord_iff_rfc9162 (p : List H) (t n : Int) (th h : H) (ht : t ≤ 2 ^ 63) :
+    checkRecord node p t th n h = .ok () ↔
+      0 ≤ t ∧ 0 ≤ n ∧ RFC6962.verifyInclusion node p t.toNat n.toNat h th = true := by
+  rw [checkRecord_iff node p t n th h ht, rfc9162_incl_equiv]
+
+/-- ★ … (consistency): for `0 < n < t`, `CheckTree` returns nil exactly when RFC 9162 §2.1.4.2 accepts. -/
+theorem checkTree_iff_rfc9162 (p : List H) (t n : Int) (th h : H) (ht : t ≤ 2 ^ 63) (h0 : 0 < n) (hn : n < t) :
+    checkTree node p t th n h = .ok () ↔ RFC6962.verifyConsistency node p n.toNat t.toNat h th = true := by
+  rw [checkTree_iff node p t n th h ht, rfc9162_cons_equiv node p t.toNat n.toNat h th (by omega) (by omega)]
+  constructor
+  · exact fun hc => hc.2.2
+  · exact fun hc => ⟨by omega, by omega, hc⟩
+
+/-- the remaining case `n = t` of `CheckTree` (outside the domain of RFC 9162 §2.1.4.2, which requires
+    `first < second`): accepted exactly for the empty proof and equal roots -/
+theorem checkTree_same_size_iff (p : List H) (t : Int) (th h : H) (ht : t ≤ 2 ^ 63) (h1 : 1 ≤ t) :
+    checkTree node p t th t h = .ok () ↔ p = [] ∧ h = th := by
+  rw [checkTree_iff node p t t th h ht]
+  unfold RFC6962.AcceptCons
+  have hpos : 1 ≤ t.toNat := by omega
+  cases htn : t.toNat with
+  | zero => omega
+  | succ k =>
+    unfold RFC6962.consRootsF
+    simp only [↓reduceIte]
+    cases p with
+    | nil =>
+      simp only [List.isEmpty_nil, ↓reduceIte, Option.some.injEq, Prod.mk.injEq, true_and]
+      constructor
+      · rintro ⟨_, _, _, _, hc⟩; exact hc
+      · rintro hc; exact ⟨by omega, by omega, by omega, by omega, hc⟩
+    | cons x xs => simp
+
+end
+
+/-- non-vacuity of the range hypotheses of `rfc9162_cons_equiv` / `checkTree_iff_rfc9162` / `checkTree_same_size_iff`
+    (`proveTree_witness` above evaluates both sides on this instance) -/
+example : (0 : Nat) < 3 ∧ (3 : Nat) < 7 ∧ (7 : Int) ≤ 2 ^ 63 ∧ (0 : Int) < 3 ∧ (3 : Int) < 7 ∧ (1 : Int) ≤ 7 := by decide
 
 end ModVerif.Props.C03
